@@ -135,12 +135,16 @@ class Frame(object):
             # Load waterfall via filename or Waterfall object
             if isinstance(waterfall, pathlib.PurePath):
                 waterfall = str(waterfall)
+            own_data = True
             if isinstance(waterfall, str):
                 f_start = kwargs.get('f_start')
                 f_stop = kwargs.get('f_stop')
                 self.waterfall = Waterfall(waterfall, f_start=f_start, f_stop=f_stop)
             elif isinstance(waterfall, Waterfall):
                 self.waterfall = waterfall
+                # The caller's object (possibly used for other frames too): its data buffer 
+                # must not become this frame's working array
+                own_data = False
             else:
                 raise FileNotFoundError(f'Unsupported data type: {type(waterfall)}')
             self.header = self.waterfall.header
@@ -168,6 +172,8 @@ class Frame(object):
             self.data = waterfall_utils.get_data(self.waterfall)
             if not self.ascending:
                 self.data = self.data[:, ::-1]
+            if not own_data:
+                self.data = np.copy(self.data)
         else:
             raise ValueError(f'Frame must be provided dimensions or an '
                              f'existing filterbank file.')
